@@ -172,6 +172,14 @@ func (c *Counter) Add(n int64) {
 					state = c.state.load()
 				}
 				debugPrintf("Add %q += %d: nil extra=%d\n", c.name, n, state.extra())
+				if c.file.current.Load() != nil {
+					// A file is mapped, so the nil pointer is stale: it
+					// was left nil because there was nothing to flush when
+					// it was last refreshed. Drop havePtr so that the last
+					// reader reloads the pointer and flushes extra.
+					c.invalidate()
+					state = c.state.load()
+				}
 			} else {
 				sum := c.add(uint64(n))
 				debugPrintf("Add %q += %d: count=%d\n", c.name, n, sum)
